@@ -213,6 +213,11 @@ def STOP(r):
         p.append('starts a TCP connect')
     if r.regime == 'live' and r.pre != 'Idle' and not r.closes():
         p.append('does not close the connection')
+    # RFC 4271 8.2.2, ManualStop in every state: "sets the ConnectRetryCounter to zero"
+    c = r.field('fsm', 'connect_retry_counter')
+    if not (c is not None and getattr(c, 'value', None) == 0):
+        p.append('the ConnectRetryCounter is %s after the stop, expected 0 (regime: %s)' % (
+            c.desc() if c is not None else None, r.regime))
     return p
 
 
